@@ -6,6 +6,8 @@ import (
 	"fmt"
 	"net/http"
 	"regexp"
+	"strconv"
+	"strings"
 	"time"
 
 	"github.com/oauth2-proxy/oauth2-proxy/v7/pkg/apis/options"
@@ -69,15 +71,8 @@ func (s *SessionStore) Load(req *http.Request) (*sessions.SessionState, error) {
 // Clear clears any saved session information by writing a cookie to
 // clear the session
 func (s *SessionStore) Clear(rw http.ResponseWriter, req *http.Request) error {
-	// matches CookieName, CookieName_<number>
-	var cookieNameRegex = regexp.MustCompile(fmt.Sprintf("^%s(_\\d+)?$", s.Cookie.Name))
-
-	for _, c := range req.Cookies() {
-		if cookieNameRegex.MatchString(c.Name) {
-			clearCookie := s.makeCookie(req, c.Name, "", time.Hour*-1)
-
-			http.SetCookie(rw, clearCookie)
-		}
+	for _, name := range s.sessionCookieNames(req.Cookies()) {
+		http.SetCookie(rw, s.makeCookie(req, name, "", time.Hour*-1))
 	}
 
 	return nil
@@ -113,6 +108,40 @@ func (s *SessionStore) setSessionCookie(rw http.ResponseWriter, req *http.Reques
 		http.SetCookie(rw, c)
 	}
 	return nil
+}
+
+// sessionCookieNames returns the distinct names among the given cookies that
+// belong to the session: CookieName, CookieName_<number> and the (possibly
+// truncated) names produced by splitCookieName.
+func (s *SessionStore) sessionCookieNames(cookies []*http.Cookie) []string {
+	cookieNameRegex := regexp.MustCompile(fmt.Sprintf("^%s(_\\d+)?$", regexp.QuoteMeta(s.Cookie.Name)))
+
+	names := []string{}
+	seen := map[string]struct{}{}
+	for _, c := range cookies {
+		if _, ok := seen[c.Name]; ok {
+			continue
+		}
+		if cookieNameRegex.MatchString(c.Name) || isSplitCookieName(s.Cookie.Name, c.Name) {
+			seen[c.Name] = struct{}{}
+			names = append(names, c.Name)
+		}
+	}
+	return names
+}
+
+// isSplitCookieName reports whether candidate is one of the names
+// splitCookieName generates for name, including truncated ones.
+func isSplitCookieName(name, candidate string) bool {
+	i := strings.LastIndex(candidate, "_")
+	if i < 0 {
+		return false
+	}
+	count, err := strconv.Atoi(candidate[i+1:])
+	if err != nil || count < 0 {
+		return false
+	}
+	return splitCookieName(name, count) == candidate
 }
 
 // makeSessionCookie creates an http.Cookie containing the authenticated user's
